@@ -85,7 +85,7 @@ def n_elements(state):
 class Interp:
     """One conversation state driven event by event."""
 
-    def __init__(self, program, budget_base=2000, budget_per_element=200):
+    def __init__(self, program, budget_base=300, budget_per_element=30):
         from nemoguardrails.colang.v2_x.runtime.flows import InternalEvent
 
         self.program = program
